@@ -182,7 +182,22 @@ PredictWith(q, w) ==
 
 Predict == \E q \in Queries : \E w \in 0..(K - 1) : PredictWith(q, w)
 
-Next == BeginIter \/ CapStop \/ SkipSmall \/ Evaluate \/ AcceptBest \/ Stop \/ Finalize \/ Predict
+\* fit() called again on the SAME object (the sampler's Trainer refits one clusterer every cluster_every iterations,
+\* the Resampler predicts with it in between): the constructor's parameters stay, everything a previous fit or
+\* predict produced is re-initialised - nothing (number of clusters, per-cluster densities, labels) carries over.
+\* The action adds transitions, not states: every invariant below therefore holds along object HISTORIES
+\* fit -> predict* -> fit -> ..., and the replay binds it by chaining terminal behaviours on one real object.
+Refit ==
+    /\ pc \in {"done", "predicted"}
+    /\ \E nn \in Ns :
+         /\ n' = nn
+         /\ clusters' = << 1..nn >>
+    /\ pc' = "while"
+    /\ iter' = 0 /\ idx' = 0 /\ best' = NoBest /\ log' = <<>> /\ splits' = <<>> /\ labels' = <<>>
+    /\ K' = -1 /\ query' = NoQuery /\ pred' = -1
+    /\ UNCHANGED <<minPts, maxIter>>
+
+Next == BeginIter \/ CapStop \/ SkipSmall \/ Evaluate \/ AcceptBest \/ Stop \/ Finalize \/ Predict \/ Refit
 
 Spec == Init /\ [][Next]_vars
 
